@@ -63,35 +63,47 @@ def _job(args):
         return prop, [], "CRASH: %r" % e
 
 
+def _job2(args):
+    patch, prop, overlay = args
+    return _job((prop, overlay))
+
+
 def main(argv):
     write = "--write" in argv
     want = [a.upper() for a in argv if not a.startswith("--")]
     patches = sorted(glob.glob(os.path.join(HERE, "seeded", "C??", "*", "patch.diff")))
     if want:
         patches = [p for p in patches if p.split(os.sep)[-3] in want]
+    overlays = {}
+    for patch in patches:
+        overlays[patch] = overlay_of(patch)
     with Pool(16) as pool:
         base = {p: set(map(tuple, v)) for p, v, _ in pool.map(_job, [(p, None) for p in ALL])}
-        results = {}
-        for patch in patches:
-            prop, k = patch.split(os.sep)[-3:-1]
-            ov = overlay_of(patch)
-            row = {"files": sorted(ov), "new": {}, "errors": {}}
-            for p, got, err in pool.map(_job, [(p, ov) for p in ALL]):
-                new = sorted(set(map(tuple, got)) - base[p])
-                if new:
-                    row["new"][p] = ["%s %s" % rc for rc in new]
-                if err:
-                    row["errors"][p] = err
-            caught = prop in row["new"] or prop in row["errors"]
-            row["caught_by_own_property"] = prop in row["new"]
-            results["%s/%s" % (prop, k)] = row
-            print("%s/%s  own=%s  %s%s" % (
-                prop, k, "CAUGHT" if prop in row["new"] else ("ERROR" if prop in row["errors"] else "missed"),
-                {p: len(v) for p, v in row["new"].items()},
-                ("  errors=%s" % row["errors"]) if row["errors"] else ""))
-            for p, v in sorted(row["new"].items()):
-                for line in v[:4]:
-                    print("      %s %s" % (p, line))
+        jobs = [(patch, p) for patch in patches for p in ALL]
+        outs = pool.map(_job2, [(patch, p, overlays[patch]) for patch, p in jobs], chunksize=4)
+    results = {}
+    by = {}
+    for (patch, p), (pp, got, err) in zip(jobs, outs):
+        by.setdefault(patch, []).append((pp, got, err))
+    for patch in patches:
+        prop, k = patch.split(os.sep)[-3:-1]
+        ov = overlays[patch]
+        row = {"files": sorted(ov), "new": {}, "errors": {}}
+        for p, got, err in by[patch]:
+            new = sorted(set(map(tuple, got)) - base[p])
+            if new:
+                row["new"][p] = ["%s %s" % rc for rc in new]
+            if err:
+                row["errors"][p] = err
+        row["caught_by_own_property"] = prop in row["new"]
+        results["%s/%s" % (prop, k)] = row
+        print("%s/%s  own=%s  %s%s" % (
+            prop, k, "CAUGHT" if prop in row["new"] else ("ERROR" if prop in row["errors"] else "missed"),
+            {p: len(v) for p, v in row["new"].items()},
+            ("  errors=%s" % row["errors"]) if row["errors"] else ""))
+        for p, v in sorted(row["new"].items()):
+            for line in v[:4]:
+                print("      %s %s" % (p, line))
     if write:
         with open(os.path.join(HERE, "seeded", "RESULTS.json"), "w") as fp:
             json.dump(results, fp, indent=1, sort_keys=True)
